@@ -810,21 +810,22 @@ func TestVerifC19(t *testing.T) {
 	}
 	start := time.Now()
 
-	// ---- part 2 first (small): the cron scenarios share at most 40% of the wall budget
+	// ---- part 2 first (small): the cron scenarios share at most 50% of the wall budget
 	type cfg struct {
 		nodes, ticks int
 		cancel       bool
+		faults       int // bound on injected claim-store errors
 	}
-	cfgs := vsched.Pick([]cfg{{2, 2, true}, {3, 1, false}, {3, 2, false}}, []cfg{{2, 2, true}, {2, 3, true}, {3, 2, false}, {3, 2, true}})
+	cfgs := vsched.Pick([]cfg{{2, 2, true, 1}, {3, 1, false, 1}, {3, 2, false, 1}}, []cfg{{2, 2, true, 1}, {2, 3, true, 0}, {3, 2, false, 1}, {3, 2, true, 0}})
 	for k, cf := range cfgs {
 		cf := cf
 		name := fmt.Sprintf("cron-claim-%dnodes-%dticks", cf.nodes, cf.ticks)
 		if cf.cancel {
 			name += "-cancel"
 		}
-		dl := start.Add(time.Duration(0.4 * budget * float64(k+1) / float64(len(cfgs)) * float64(time.Second)))
-		vsched.Explore(vsched.Config{Scenario: name, Bound: 1, SplitDepth: 3, Deadline: dl, Params: map[string]any{
-			"nodes": cf.nodes, "ticks": cf.ticks, "cancel_on_node0": cf.cancel, "cron": "* * * * * *", "fault": "injected claim-store error (cost 1)",
+		dl := start.Add(time.Duration(0.5 * budget * float64(k+1) / float64(len(cfgs)) * float64(time.Second)))
+		vsched.Explore(vsched.Config{Scenario: name, Bound: cf.faults, SplitDepth: 3, Deadline: dl, Params: map[string]any{
+			"nodes": cf.nodes, "ticks": cf.ticks, "cancel_on_node0": cf.cancel, "cron": "* * * * * *", "fault": "injected claim-store error (cost 1)", "fault_bound": cf.faults,
 		}}, func(c *vsched.Chooser) vsched.Outcome { return c19CronRun(t, cf.nodes, cf.ticks, cf.cancel, c) })
 	}
 
